@@ -295,9 +295,54 @@ fn msg_class(msg: &str) -> &'static str {
     }
 }
 
+struct Pending {
+    spliced: String,
+    a: u32,
+    b: u32,
+    off: u32,
+    name: String,
+    class: String,
+    src: String,
+    origin: String,
+    vname: String,
+}
+
 struct Ctx<'a> {
     out: &'a mut Out,
     verbose: bool,
+    pending: Vec<Pending>,
+}
+
+/// Run the collected end-to-end insertions in one child process and report.
+fn flush_splices(cx: &mut Ctx) {
+    if cx.pending.is_empty() {
+        return;
+    }
+    let pend = std::mem::take(&mut cx.pending);
+    let texts: Vec<String> = pend.iter().map(|x| x.spliced.clone()).collect();
+    let results = undefined_in_child(&texts);
+    let out = &mut *cx.out;
+    for (p, r) in pend.iter().zip(results) {
+        out.count("spliced-suggestions");
+        let undefined = match r {
+            Some(v) => v,
+            None => {
+                out.count("spliced-suggestions:front-end-abort(skipped; C09)");
+                continue;
+            }
+        };
+        if undefined.iter().any(|(st, name)| *st == p.a && *name == p.name) {
+            out.oracle_fail(
+                &format!("suggest-undefined-when-inserted:{}", p.class),
+                &format!(
+                    "the name `{}` suggested at offset {} is an `Undefined variable` for the typechecker when inserted there ({}..{})",
+                    p.name, p.off, p.a, p.b
+                ),
+                serde_json::json!({"src": p.src, "pos": p.off, "query": "suggest-nofilter", "origin": p.origin, "variant": p.vname, "spliced": p.spliced}),
+            );
+            out.count("spliced-suggestions:undefined");
+        }
+    }
 }
 
 /// Run everything for one program text.
@@ -331,6 +376,11 @@ fn run_variant(cx: &mut Ctx, origin: &str, vname: &str, src: &str) {
         out.count("front:infix-errors");
     }
     let clean = !checked.parse_errors && !checked.type_errors && !checked.infix_errors;
+    // the end-to-end clause re-runs the front end: all complete programs, a third of the others
+    // (only programs the parser accepts: after error recovery AST and checker can disagree on
+    // what a malformed pattern binds)
+    let do_splice = !checked.parse_errors
+        && (kind == "complete" || kind == "probe" || kind == "replay" || src.len() % 3 == 0);
     let expr = checked.expr.expr();
     let env = &checked.env;
     let len = src.len() as u32;
@@ -393,6 +443,7 @@ fn run_variant(cx: &mut Ctx, origin: &str, vname: &str, src: &str) {
 
     let mut payload = String::from("(");
     let mut classes: Vec<String> = vec![];
+    let mut splices: Vec<(String, u32, u32, u32, u32, String)> = vec![];
     for off in 0..=(len + 2) {
         let pos = BytePos::from(off);
         out.count("offsets");
@@ -596,6 +647,19 @@ fn run_variant(cx: &mut Ctx, origin: &str, vname: &str, src: &str) {
                 for n in names.iter() {
                     out.count("suggestions");
                     let ok = inf.in_scope(n, soff);
+                    if !ok && inf.renamed_field_at(n, soff) {
+                        // `{ field = pat }` binds what `pat` binds, never `field`
+                        out.oracle_fail(
+                            "suggest-out-of-scope:record-pattern-field",
+                            &format!(
+                                "{} at offset {} returns `{}`, the FIELD name of a renaming record-pattern field `{{ {} = … }}` that scopes over the offset; only the inner pattern's names are bound",
+                                which, off, n, n
+                            ),
+                            replay(off, which),
+                        );
+                        out.count("out-of-scope:record-pattern-field");
+                        break;
+                    }
                     if !ok {
                         let class = inf.leak_class(n, soff);
                         if class == "unbound-name" && (n.is_empty() || src_tokens.iter().any(|t| t == n)) {
@@ -618,8 +682,58 @@ fn run_variant(cx: &mut Ctx, origin: &str, vname: &str, src: &str) {
                 }
             }
         }
+
+        // ---- end to end (collected here, run after the loop in a child process): a suggested
+        // name, inserted in place of the identifier under the cursor, must not be an
+        // `Undefined variable` for the typechecker
+        if do_splice && !inf.disordered {
+            if let Some(names) = &names_nofilter {
+                for (a, b, _, what) in inf.idents.iter() {
+                    if *what != "expr" || *b != off || *a >= *b {
+                        continue;
+                    }
+                    let mut tried: Vec<&String> = vec![];
+                    for n in names.iter() {
+                        if tried.contains(&n) || tried.len() >= 6 || n.is_empty() {
+                            continue;
+                        }
+                        tried.push(n);
+                        let spliced = format!("{}{}{}", &src[..(*a as usize - 1)], n, &src[(*b as usize - 1)..]);
+                        splices.push((spliced, *a, *b, off, soff, n.clone()));
+                    }
+                }
+            }
+        }
     }
     payload.push(')');
+
+    for (spliced, a, b, off, soff, n) in splices {
+        // a name the typechecker already reports as undefined somewhere in this program (e.g.
+        // bound by a pattern it rejected) says nothing
+        if checked.undefined.iter().any(|(_, name)| *name == n) {
+            cx.out.count("spliced-suggestions:name-already-undefined-in-program(not judged)");
+            continue;
+        }
+        let class = if inf.renamed_field_at(&n, soff) {
+            "record-pattern-field".to_string()
+        } else if inf.in_scope(&n, soff) {
+            "scope-oracle-says-in-scope".to_string()
+        } else {
+            inf.leak_class(&n, soff)
+        };
+        cx.pending.push(Pending {
+            spliced,
+            a,
+            b,
+            off,
+            name: n,
+            class,
+            src: src.to_string(),
+            origin: origin.to_string(),
+            vname: vname.to_string(),
+        });
+    }
+    let out = &mut *cx.out;
 
     if in_fragment {
         let mut req = format!("find {} (names", len);
@@ -659,6 +773,12 @@ const CORPUS: &[&str] = &[
     "\\x -> match x with\n    | (a, ()) -> a",
     // D13 (fixed 924e3ee): the checker wraps an expression in `Expr::Annotated`
     "[2, \\g -> g, let x = True in 561]",
+    // record patterns: a renaming field binds the inner pattern's names only
+    "let { width = w, height } = { width = 1, height = 2 } in w #Int+ height",
+    "match { fa = 1, sb = 2 } with\n| { fa = (a, b), sb } -> sb\n| { fa = q } -> q",
+    "let { fa = { fb = inner } } = { fa = { fb = 1 } } in inner",
+    "type T = Int in let { T, fa = v } = { T, fa = 1 } in v",
+    "\\r -> match r with\n    | { width = w } -> w",
     // cursor on a keyword before/after a binding construct
     "let a = 1 in let b = 2 in b",
     "if True then let y = 1 in y else 2",
@@ -704,6 +824,16 @@ fn child(mode: &str) {
             Err(_) => continue,
         };
         let c = gv::catch(|| front::check(&src));
+        if mode == "undefined" {
+            let v: Vec<(u32, String)> = match &c {
+                Ok(Some(c)) => c.undefined.clone(),
+                _ => vec![],
+            };
+            let mut o = stdout.lock();
+            writeln!(o, "{}", serde_json::to_string(&v).unwrap()).unwrap();
+            o.flush().unwrap();
+            continue;
+        }
         if mode == "screen" {
             if let Ok(Some(c)) = c {
                 let expr = c.expr.expr();
@@ -724,6 +854,43 @@ fn child(mode: &str) {
         writeln!(o, "ok").unwrap();
         o.flush().unwrap();
     }
+}
+
+/// The `UndefinedVariable` errors the typechecker reports for each text, computed in child
+/// processes (`None`: the front end aborted on it).
+fn undefined_in_child(srcs: &[String]) -> Vec<Option<Vec<(u32, String)>>> {
+    use gv::child::Exit;
+    let mut res: Vec<Option<Vec<(u32, String)>>> = vec![None; srcs.len()];
+    let mut start = 0usize;
+    while start < srcs.len() {
+        let mut input = String::new();
+        for s in &srcs[start..] {
+            input.push_str(&serde_json::to_string(s).unwrap());
+            input.push('\n');
+        }
+        let r = gv::child::run(&["--child", "undefined"], input.as_bytes(), std::time::Duration::from_secs(120));
+        let (stdout, finished) = match &r {
+            Exit::Ok(o) => (o.clone(), true),
+            Exit::Code(_, o, _) | Exit::Signal(_, o, _) | Exit::Timeout(o) => (o.clone(), false),
+        };
+        let mut n = 0;
+        for l in stdout.lines() {
+            if start + n >= srcs.len() {
+                break;
+            }
+            if let Ok(v) = serde_json::from_str::<Vec<(u32, String)>>(l) {
+                res[start + n] = Some(v);
+                n += 1;
+            } else {
+                break;
+            }
+        }
+        if finished {
+            break;
+        }
+        start += n + 1;
+    }
+    res
 }
 
 /// Which of `srcs` can be run in-process. A program on which a child aborts is classified by a
@@ -808,8 +975,10 @@ fn main() {
         let mut cx = Ctx {
             out: &mut out,
             verbose: true,
+            pending: vec![],
         };
         run_variant(&mut cx, "replay", "replay", &src);
+        flush_splices(&mut cx);
         println!(
             "replayed {:?} (asked offset {}): {} oracle failures",
             src, case["pos"], out.n_oracle_fail
@@ -822,8 +991,10 @@ fn main() {
         let mut cx = Ctx {
             out: &mut out,
             verbose: true,
+            pending: vec![],
         };
         run_variant(&mut cx, "probe", "probe", &args.extra[1]);
+        flush_splices(&mut cx);
         out.finish();
         let o = std::fs::read_to_string(args.out.join("oracle.jsonl")).unwrap();
         print!("{}", o);
@@ -834,6 +1005,7 @@ fn main() {
     let mut cx = Ctx {
         out: &mut out,
         verbose: false,
+        pending: vec![],
     };
 
     // corpus first
@@ -850,6 +1022,7 @@ fn main() {
         }
     }
 
+    flush_splices(&mut cx);
     let n_prog = if args.thorough() { 1500 } else { 90 };
     for i in 0..n_prog {
         let depth = 2 + rng.below(3) as u32;
@@ -869,6 +1042,7 @@ fn main() {
                 run_variant(&mut cx, &origin, vname, text);
             }
         }
+        flush_splices(&mut cx);
     }
     out.finish();
 }
